@@ -403,10 +403,10 @@ DevClassesC(T, call, cx) ==
         IntAt(j, i) /\ P1(T[j].p[i], call.a[i], mode) = "failovf"
      THEN {"C02-overflow-cleared"} ELSE {})
   \cup
-  \* a Python bool is an int: the integer overload is tried before the bool overload
+  \* a Python bool is a number: an integer / floating overload is tried before the bool overload
   (IF \E j1, j2 \in R : \E i \in Pos(T, call, j1) \cap Pos(T, call, j2) :
-        call.a[i].t = "bool" /\ T[j1].p[i] \in IntCats /\ T[j2].p[i] = "bool"
-     THEN {"C02-bool-takes-int-overload"} ELSE {})
+        call.a[i].t = "bool" /\ T[j1].p[i] \in IntCats \cup FloatCats /\ T[j2].p[i] = "bool"
+     THEN {"C02-bool-takes-number-overload"} ELSE {})
 
 DevC(T, call, cx) == DevClassesC(T, call, cx)
 Dev(T, call) == DevC(T, call, SetCtx(T))
@@ -424,6 +424,16 @@ Refines ==
     \A call \in Calls(S, kind) :
        LET e == Expected(S, call) IN
        e.k # "none" /\ DevC(S, call, cx) = {} => \A m \in PyResultsC(S, call, cx) : Agree(m, e)
+
+\* both in one pass over the calls (what the registered configurations check)
+RefinesAndTies ==
+  done /\ InDomain =>
+    LET cx == SetCtx(S) IN
+    \A call \in Calls(S, kind) :
+       LET e == Expected(S, call)
+           rs == PyResultsC(S, call, cx) IN
+       /\ Cardinality(rs) = 1
+       /\ (e.k # "none" /\ DevC(S, call, cx) = {} => \A m \in rs : Agree(m, e))
 
 \* inside the domain ties of the sort order never change the outcome
 TiesHarmless ==
